@@ -358,6 +358,12 @@ pub struct Sim {
     pub route_log: Option<Vec<RouteRec>>,
 }
 
+/// nanoseconds of a duration, saturating (a timer may legitimately lie 2^62 us ahead, e.g. after an ACK_FREQUENCY
+/// frame with a huge max_ack_delay; a truncating cast would wrap it into the past)
+pub fn sat_ns(d: Duration) -> u64 {
+    u64::try_from(d.as_nanos()).unwrap_or(u64::MAX)
+}
+
 pub fn addr(port: u16) -> SocketAddr {
     SocketAddr::new(IpAddr::V6(Ipv6Addr::LOCALHOST), port)
 }
@@ -375,7 +381,7 @@ fn addr_num(a: &SocketAddr) -> u64 {
 pub fn path_state(base: Instant, s: &Snapshot, may_migrate: bool) -> String {
     let p = |x: &quinn_proto::verif::PathSnap, sep: &str| format!("{}{sep}{}{sep}{}{sep}{}", addr_num(&x.remote), x.validated as u8, x.challenge as u8, x.challenge_pending as u8);
     let prev = s.prev_path.as_ref().map_or("-".to_string(), |x| p(x, ":"));
-    let t = s.timers[4].map_or("-".to_string(), |i| (i.saturating_duration_since(base).as_nanos() as u64).to_string());
+    let t = s.timers[4].map_or("-".to_string(), |i| i.saturating_duration_since(base).as_nanos().to_string());
     format!("{} {prev} {t} {}", p(&s.path, " "), may_migrate as u8)
 }
 
@@ -388,7 +394,7 @@ pub fn life_state(base: Instant, s: &Snapshot) -> String {
         "draining" => 3,
         _ => 4,
     };
-    let t = |x: Option<Instant>| x.map_or("-".to_string(), |i| (i.saturating_duration_since(base).as_nanos() as u64).to_string());
+    let t = |x: Option<Instant>| x.map_or("-".to_string(), |i| i.saturating_duration_since(base).as_nanos().to_string());
     format!("{st} {} {} {} {}", s.has_error as u8, s.close as u8, t(s.timers[2]), t(s.timers[1]))
 }
 
@@ -473,7 +479,7 @@ impl Sim {
     }
 
     pub fn off(&self, i: Instant) -> u64 {
-        i.saturating_duration_since(self.base).as_nanos() as u64
+        sat_ns(i.saturating_duration_since(self.base))
     }
 
     pub fn fail(&mut self, key: &str, what: String) {
@@ -776,7 +782,7 @@ impl Sim {
             if let Some(b) = &before {
                 // TimerTable::next_timeout against the table itself
                 let base = self.base;
-                let t = |x: Option<Instant>| x.map_or("-".to_string(), |i| (i.saturating_duration_since(base).as_nanos() as u64).to_string());
+                let t = |x: Option<Instant>| x.map_or("-".to_string(), |i| i.saturating_duration_since(base).as_nanos().to_string());
                 let tbl: Vec<String> = b.timers.iter().map(|x| t(*x)).collect();
                 let pt = self.nodes[node].conns[&ch].conn.poll_timeout();
                 if self.model_ops.len() < 400_000 {
@@ -799,7 +805,7 @@ impl Sim {
                     }
                 }
             }
-            let next = nc.conn.poll_timeout().map(|t| t.saturating_duration_since(self.base).as_nanos() as u64);
+            let next = nc.conn.poll_timeout().map(|t| sat_ns(t.saturating_duration_since(self.base)));
             if due {
                 self.trace.push(Rec::Timeout { node, ch, at: nowoff, next });
             }
@@ -846,7 +852,7 @@ impl Sim {
                 }
                 // lifecycle transition caused by this datagram, classified from the observed outcome
                 let open = |s: &Snapshot| s.state == "handshake" || s.state == "established";
-                let toff = |x: Option<Instant>| x.map(|i| i.saturating_duration_since(self.base).as_nanos() as u64);
+                let toff = |x: Option<Instant>| x.map(|i| sat_ns(i.saturating_duration_since(self.base)));
                 let pto3 = toff(a.timers[2]).map_or(0, |t| t.saturating_sub(nowoff));
                 let same = (from == a.path.remote) as u8;
                 let ev = if open(&b) && a.state == "draining" {
@@ -988,7 +994,7 @@ impl Sim {
                 self.timeout_tap = Some(f);
             }
             self.nodes[node].conns.get_mut(&ch).unwrap().conn.handle_timeout(now);
-            let next = self.nodes[node].conns[&ch].conn.poll_timeout().map(|t| t.saturating_duration_since(self.base).as_nanos() as u64);
+            let next = self.nodes[node].conns[&ch].conn.poll_timeout().map(|t| sat_ns(t.saturating_duration_since(self.base)));
             self.trace.push(Rec::Timeout { node, ch, at: nowoff, next });
             loop {
                 let ee = self.nodes[node].conns.get_mut(&ch).unwrap().conn.poll_endpoint_events();
@@ -1269,7 +1275,7 @@ impl Sim {
         for n in &self.nodes {
             for (_, c) in n.conns.iter().filter(|(_, c)| !c.removed) {
                 if let Some(t) = c.conn.poll_timeout() {
-                    let o = t.saturating_duration_since(self.base).as_nanos() as u64 + late;
+                    let o = sat_ns(t.saturating_duration_since(self.base)).saturating_add(late);
                     next = Some(next.map_or(o, |n: u64| n.min(o)));
                 }
             }
